@@ -311,7 +311,7 @@ def run_history(ctx, scratch, kind):
         except Exception as exc:
             ctx.notes.append(f'generator problem for {kind}: {exc!r}')
             return
-        target_kind = gen.pick(rng, ['path', 'path', 'handle'])
+        target_kind = gen.pick(rng, ['path', 'path', 'pathlib', 'handle'])   # str path, pathlib.Path, open file
         overwrite = bool(rng.integers(2)) if os.path.exists(path) else bool(rng.integers(3) == 0)
         exists = os.path.exists(path)
         sig = dict(kind=kind, file_type=ftype, target=target_kind, existing=exists, overwrite=overwrite,
@@ -326,6 +326,9 @@ def run_history(ctx, scratch, kind):
             if target_kind == 'handle':
                 handle = open(path, 'r+b' if exists else 'w+b')
                 target = handle
+            elif target_kind == 'pathlib':
+                import pathlib
+                target = pathlib.Path(path)
             else:
                 target = path
             save_obj(kind, obj, target, ftype, overwrite)
@@ -345,7 +348,7 @@ def run_history(ctx, scratch, kind):
             ctx.fail('memory_unchanged', dict(sig, what='object_modified_by_save'), f'saving a {kind} changed the '
                      f'in-memory object', wit())
             return
-        must_refuse = exists and ftype == 'hdf5' and not overwrite and target_kind == 'path'
+        must_refuse = exists and ftype == 'hdf5' and not overwrite and target_kind in ('path', 'pathlib')
         if must_refuse:
             ctx.case('existing_hdf5_refused', sig)
             if raised is None:
